@@ -217,3 +217,52 @@ def run(ctx, rep):
     rep.consult(m.loc('pytableaux.proof.writers.jinja', ws) + ' TextTabWriter._write_structure')
     if not ok:
         rep.finding(R3, 'C19.R3/_write_structure', m.loc('pytableaux.proof.writers.jinja', ws), 'TextTabWriter._write_structure', 'no longer renders the structure and then every child structure in order')
+    r4(ctx, rep)
+
+
+def r4(ctx, rep):
+    """Ownership of template handles.  JinjaTabWriter.get_template binds *this* writer's lw/opts into the globals of a
+    Template object that the (class-level, shared) jinja Environment caches and hands to every writer of the class;
+    the binding is only valid until the next get_template of any writer.  So a handle must be fetched and used
+    within one call: it may live in a local, be passed down and be returned by a plain (re-evaluated) accessor, but
+    must not be stored on an object, a class or the module, nor memoised."""
+    m = ctx.m
+    R4 = rep.rule('C19.R4', 'jinja template handles (get_template results, bound to one writer\'s lw until the next fetch) never outlive the call: '
+                            'no store to an attribute/subscript/global, no memoising decorator on the fetching function')
+    MEMO = ('cached_property', 'lru_cache', 'cache', 'lazy', 'membr', 'memoize', 'memoized')
+    n = 0
+    for mod in sorted(m.trees):
+        if not mod.startswith('pytableaux.proof.writers'):
+            continue
+        for qn, fn in astq.all_functions(m.trees[mod]):
+            sites = [c for c in astq.walk_no_nested(fn) if isinstance(c, ast.Call) and isinstance(c.func, ast.Attribute) and c.func.attr == 'get_template']
+            if not sites:
+                continue
+            rep.consult(f'{m.loc(mod, fn)} {qn}')
+            decos = [astq.u(d) for d in fn.decorator_list]
+            bad = [d for d in decos if any(x in d.split('(')[0].split('.') for x in MEMO)]
+            n += 1
+            rep.instance(R4, ok=not bad, nontrivial=(mod, qn, 'decorators'))
+            for d in bad:
+                rep.finding(R4, f'C19.R4/{mod}:{qn}/memoised', m.loc(mod, fn), qn,
+                            f'`@{d}` memoises a function that fetches a template handle: the handle is rebound to whichever writer fetched last, '
+                            f'so a kept handle renders with another writer\'s notation')
+            # names holding a handle
+            handles = set()
+            globs = {x for g in astq.walk_no_nested(fn) if isinstance(g, (ast.Global, ast.Nonlocal)) for x in g.names}
+            for t, st in astq.stores(fn, nested=False):
+                val = getattr(st, 'value', None)
+                if val is None:
+                    continue
+                holds = any(c in sites for c in ast.walk(val)) or (isinstance(val, ast.Name) and val.id in handles)
+                if not holds:
+                    continue
+                n += 1
+                if isinstance(t, ast.Name) and t.id not in globs:
+                    handles.add(t.id)
+                    rep.instance(R4, ok=True, nontrivial=(mod, qn, astq.u(t)))
+                else:
+                    rep.instance(R4, ok=False, nontrivial=(mod, qn, astq.u(t)))
+                    rep.finding(R4, f'C19.R4/{mod}:{qn}/stored/{astq.u(t)}', m.loc(mod, st), qn,
+                                f'`{astq.u(st)[:80]}` keeps a template handle beyond the call')
+    rep.floor('C19.R4', 'functions fetching a template handle (+ their stores)', n, 3)
